@@ -150,6 +150,150 @@ let rec pexpr (e : pexpr) : string =
   | PTuple es -> "(Tuple " ^ l es ^ ")" | PList es -> "(List " ^ l es ^ ")" | PSet es -> "(Set " ^ l es ^ ")"
 
 
+
+(* ---------- typed AST S-expression -> Convert.ast ; Core -> S-expression ---------- *)
+let opt f = function Atom "~" -> None | x -> Some (f x)
+let rec nm_of = function
+  | Node ("NM", [ms]) -> NM (List.map tn_of (lst ms))
+  | _ -> raise (Bad "nm")
+and tn_of = function
+  | Node ("TN", [n; name; gs]) ->
+      let nmstr = str name in
+      if implode nmstr = "Union" then raise (Bad "type named Union is outside the model");
+      TN (boolean n, nmstr, List.map nm_of (lst gs))
+  | _ -> raise (Bad "tn")
+let nbin_of = function
+  | "Add" -> SAdd | "Sub" -> SSub | "Mul" -> SMul | "Div" -> SDiv | "FDiv" -> SFDiv | "Mod" -> SMod | "Pow" -> SPow
+  | "BAnd" -> SBAnd | "BOr" -> SBOr | "BXOr" -> SBXOr | "BLShift" -> SBLShift | "BRShift" -> SBRShift
+  | "And" -> SAnd | "Or" -> SOr | "Eq" -> SEq | "Neq" -> SNeq | "Is" -> SIs | "IsN" -> SIsN | "IsA" -> SIsA
+  | "IsNA" -> SIsNA | "In" -> SIn | "Le" -> SLe | "Leq" -> SLeq | "Ge" -> SGe | "Geq" -> SGeq
+  | "Question" -> SQuestion | o -> raise (Bad ("binary " ^ o))
+let nun_of = function
+  | "AddU" -> SAddU | "SubU" -> SSubU | "Not" -> SNot | "BOneCmpl" -> SBOneCmpl | "Sqrt" -> SSqrt
+  | o -> raise (Bad ("unary " ^ o))
+let nodeop_of = function
+  | "Assign" -> NAssign | "Add" -> NAdd | "Sub" -> NSub | "Sqrt" -> NSqrt | "Mul" -> NMul | "FDiv" -> NFDiv
+  | "Div" -> NDiv | "Pow" -> NPow | "Mod" -> NMod | "Eq" -> NEq | "Le" -> NLe | "Ge" -> NGe
+  | "BLShift" -> NBLShift | "BRShift" -> NBRShift | o -> raise (Bad ("nodeop " ^ o))
+let atom = function Atom a -> a | _ -> raise (Bad "atom expected")
+let rec ast_of = function
+  | Node ("A", [ty; n]) -> A (opt nm_of ty, node_of n)
+  | _ -> raise (Bad "ast")
+and asts l = List.map ast_of (lst l)
+and node_of (s : sx) : node =
+  match s with
+  | Node ("NInt", [a]) -> NInt (str a) | Node ("NReal", [a]) -> NReal (str a)
+  | Node ("NENum", [a; b]) -> NENum (str a, str b)
+  | Node ("NStr", [a; b]) -> NStr (str a, boolean b) | Node ("NDocStr", [a]) -> NDocStr (str a)
+  | Node ("NBool", [a]) -> NBool (boolean a) | Node ("NId", [a]) -> NId (str a)
+  | Atom "NUndefined" -> NUndefined | Atom "NUnderscore" -> NUnderscore | Atom "NPass" -> NPass
+  | Atom "NBreak" -> NBreak | Atom "NContinue" -> NContinue | Atom "NReturnEmpty" -> NReturnEmpty
+  | Node ("NBin", [o; l; r]) -> NBin (nbin_of (atom o), ast_of l, ast_of r)
+  | Node ("NUn", [o; e]) -> NUn (nun_of (atom o), ast_of e)
+  | Node ("NTuple", [es]) -> NTuple (asts es) | Node ("NList", [es]) -> NList (asts es)
+  | Node ("NSet", [es]) -> NSet (asts es)
+  | Node ("NIndex", [a; b]) -> NIndex (ast_of a, ast_of b)
+  | Node ("NRange", [f; t; i; st]) -> NRange (ast_of f, ast_of t, boolean i, opt ast_of st)
+  | Node ("NSlice", [f; t; i; st]) -> NSlice (ast_of f, ast_of t, boolean i, opt ast_of st)
+  | Node ("NCall", [n; gs; args]) ->
+      if implode (str n) = "Union" then raise (Bad "call of Union");
+      NCall (str n, List.map nm_of (lst gs), asts args)
+  | Node ("NProp", [a; b]) -> NProp (ast_of a, ast_of b)
+  | Node ("NAnonFun", [args; b]) -> NAnonFun (asts args, ast_of b)
+  | Node ("NExprType", [e; t]) -> NExprType (ast_of e, opt nm_of t)
+  | Node ("NVarDef", [v; t; e]) -> NVarDef (ast_of v, opt nm_of t, opt ast_of e)
+  | Node ("NReassign", [l; r; o]) -> NReassign (ast_of l, ast_of r, nodeop_of (atom o))
+  | Node ("NFunDef", [i; args; r; b]) -> NFunDef (ast_of i, asts args, opt nm_of r, opt ast_of b)
+  | Node ("NFunArg", [v; var; t; d]) -> NFunArg (boolean v, ast_of var, opt nm_of t, opt ast_of d)
+  | Node ("NBlock", [l]) -> NBlock (asts l)
+  | Node ("NReturn", [e]) -> NReturn (ast_of e)
+  | Node ("NIfElse", [c; t; e]) -> NIfElse (ast_of c, ast_of t, opt ast_of e)
+  | Node ("NMatch", [c; cs]) -> NMatch (ast_of c, asts cs)
+  | Node ("NCase", [c; b]) -> NCase (ast_of c, ast_of b)
+  | Node ("NWhile", [c; b]) -> NWhile (ast_of c, ast_of b)
+  | Node ("NFor", [e; c; b]) -> NFor (ast_of e, ast_of c, ast_of b)
+  | Node ("NRaise", [e]) -> NRaise (ast_of e)
+  | Node ("NHandle", [e; cs]) -> NHandle (ast_of e, asts cs)
+  | Node ("NImport", [f; i; a]) -> NImport (opt ast_of f, asts i, asts a)
+  | Node (h, _) -> raise (Bad ("node outside the model: " ^ h))
+  | Atom a -> raise (Bad ("node outside the model: " ^ a))
+  | List _ -> raise (Bad "node")
+
+let cbin_name = function
+  | CbAdd -> "Add" | CbSub -> "Sub" | CbMul -> "Mul" | CbDiv -> "Div" | CbFDiv -> "FDiv" | CbMod -> "Mod" | CbPow -> "Pow"
+  | CbBAnd -> "BAnd" | CbBOr -> "BOr" | CbBXOr -> "BXOr" | CbBLShift -> "BLShift" | CbBRShift -> "BRShift"
+  | CbAnd -> "And" | CbOr -> "Or" | CbGe -> "Ge" | CbGeq -> "Geq" | CbLe -> "Le" | CbLeq -> "Leq" | CbEq -> "Eq"
+  | CbNeq -> "Neq" | CbIs -> "Is" | CbIsN -> "IsN" | CbIn -> "In" | CbIsA -> "IsA"
+let cun_name = function
+  | CuAddU -> "AddU" | CuSubU -> "SubU" | CuBOneCmpl -> "BOneCmpl" | CuNot -> "Not" | CuSqrt -> "Sqrt"
+  | CuReturn -> "Return" | CuRaise -> "Raise"
+let coreop_name = function
+  | OpAssign -> "Assign" | OpAddAssign -> "AddAssign" | OpSubAssign -> "SubAssign" | OpMulAssign -> "MulAssign"
+  | OpDivAssign -> "DivAssign" | OpPowAssign -> "PowAssign" | OpBLShiftAssign -> "BLShiftAssign"
+  | OpBRShiftAssign -> "BRShiftAssign"
+let funop_name0 = function
+  | FGe -> "Ge" | FGeq -> "Geq" | FLe -> "Le" | FLeq -> "Leq" | FEq -> "Eq" | FNeq -> "Neq" | FAdd -> "Add"
+  | FSub -> "Sub" | FMul -> "Mul" | FDiv -> "Div" | FPow -> "Pow" | FMod -> "Mod" | FFDiv -> "FDiv"
+let rec core_sx (c : core) : string =
+  let l cs = "[" ^ String.concat " " (List.map core_sx cs) ^ "]" in
+  let o = function Some x -> core_sx x | None -> "~" in
+  let b x = if x then "T" else "F" in
+  match c with
+  | Import (f, i, a) -> "(Import " ^ o f ^ " " ^ l i ^ " " ^ l a ^ ")"
+  | ClassDef (n, p, bd) -> "(ClassDef " ^ core_sx n ^ " " ^ l p ^ " " ^ core_sx bd ^ ")"
+  | FunctionCall (f, a) -> "(FunctionCall " ^ core_sx f ^ " " ^ l a ^ ")"
+  | PropertyCall (x, p) -> "(PropertyCall " ^ core_sx x ^ " " ^ core_sx p ^ ")"
+  | Id s -> "(Id " ^ hs s ^ ")"
+  | Type_ (s, g) -> "(Type " ^ hs s ^ " " ^ l g ^ ")"
+  | ExpressionType (e, t) -> "(ExpressionType " ^ core_sx e ^ " " ^ core_sx t ^ ")"
+  | Assign (x, y, op) -> "(Assign " ^ core_sx x ^ " " ^ core_sx y ^ " " ^ coreop_name op ^ ")"
+  | VarDef (v, t, e) -> "(VarDef " ^ core_sx v ^ " " ^ o t ^ " " ^ o e ^ ")"
+  | FunDefOp (op, a, t, bd) -> "(FunDefOp " ^ funop_name0 op ^ " " ^ l a ^ " " ^ o t ^ " " ^ core_sx bd ^ ")"
+  | FunDef (d, i, a, t, bd) ->
+      "(FunDef [" ^ String.concat " " (List.map hs d) ^ "] " ^ hs i ^ " " ^ l a ^ " " ^ o t ^ " " ^ core_sx bd ^ ")"
+  | FunArg (v, x, t, d) -> "(FunArg " ^ b v ^ " " ^ core_sx x ^ " " ^ o t ^ " " ^ o d ^ ")"
+  | AnonFun (a, bd) -> "(AnonFun " ^ l a ^ " " ^ core_sx bd ^ ")"
+  | Block s -> "(Block " ^ l s ^ ")"
+  | Float s -> "(Float " ^ hs s ^ ")" | Int s -> "(Int " ^ hs s ^ ")"
+  | ENum (n, e) -> "(ENum " ^ hs n ^ " " ^ hs e ^ ")"
+  | DocStr s -> "(DocStr " ^ hs s ^ ")" | Str s -> "(Str " ^ hs s ^ ")" | FStr s -> "(FStr " ^ hs s ^ ")"
+  | Bool x -> "(Bool " ^ b x ^ ")"
+  | Tuple e -> "(Tuple " ^ l e ^ ")" | TupleLiteral e -> "(TupleLiteral " ^ l e ^ ")"
+  | DictComprehension (f, t, cl, cs) ->
+      "(DictComprehension " ^ core_sx f ^ " " ^ core_sx t ^ " " ^ core_sx cl ^ " " ^ l cs ^ ")"
+  | Comprehension (e, cl, cs) -> "(Comprehension " ^ core_sx e ^ " " ^ core_sx cl ^ " " ^ l cs ^ ")"
+  | Dictionary es ->
+      "(Dictionary [" ^ String.concat " " (List.map (fun (k, v) -> "[" ^ core_sx k ^ " " ^ core_sx v ^ "]") es) ^ "])"
+  | Set_ e -> "(Set " ^ l e ^ ")" | List_ e -> "(List " ^ l e ^ ")"
+  | Index (i, r) -> "(Index " ^ core_sx i ^ " " ^ core_sx r ^ ")"
+  | Bin (op, x, y) -> "(" ^ cbin_name op ^ " " ^ core_sx x ^ " " ^ core_sx y ^ ")"
+  | Un (op, x) -> "(" ^ cun_name op ^ " " ^ core_sx x ^ ")"
+  | For (e, cl, bd) -> "(For " ^ core_sx e ^ " " ^ core_sx cl ^ " " ^ core_sx bd ^ ")"
+  | If (cn, t) -> "(If " ^ core_sx cn ^ " " ^ core_sx t ^ ")"
+  | IfElse (cn, t, e) -> "(IfElse " ^ core_sx cn ^ " " ^ core_sx t ^ " " ^ core_sx e ^ ")"
+  | Match (e, cs) -> "(Match " ^ core_sx e ^ " " ^ l cs ^ ")"
+  | Case (e, bd) -> "(Case " ^ core_sx e ^ " " ^ core_sx bd ^ ")"
+  | Ternary (cn, t, e) -> "(Ternary " ^ core_sx cn ^ " " ^ core_sx t ^ " " ^ core_sx e ^ ")"
+  | KeyValue (k, v) -> "(KeyValue " ^ core_sx k ^ " " ^ core_sx v ^ ")"
+  | While (cn, bd) -> "(While " ^ core_sx cn ^ " " ^ core_sx bd ^ ")"
+  | Break -> "Break" | Continue -> "Continue" | UnderScore -> "UnderScore" | Pass -> "Pass"
+  | None_ -> "None" | Empty -> "Empty"
+  | TryExcept (s, a, ex) -> "(TryExcept " ^ o s ^ " " ^ core_sx a ^ " " ^ l ex ^ ")"
+  | ExceptId (i, cl, bd) -> "(ExceptId " ^ core_sx i ^ " " ^ core_sx cl ^ " " ^ core_sx bd ^ ")"
+  | Except (cl, bd) -> "(Except " ^ core_sx cl ^ " " ^ core_sx bd ^ ")"
+  | With (r, e) -> "(With " ^ core_sx r ^ " " ^ core_sx e ^ ")"
+  | WithAs (r, a, e) -> "(WithAs " ^ core_sx r ^ " " ^ core_sx a ^ " " ^ core_sx e ^ ")"
+
+let gen_cmd (payload : string) : string =
+  match String.index_opt payload '\t' with
+  | None -> "BAD\tgen needs annotate and tree"
+  | Some k ->
+      let ann = String.sub payload 0 k = "1" in
+      let tree = ast_of (parse_sx (String.sub payload (k + 1) (String.length payload - k - 1))) in
+      (match gen ann tree with
+       | Some c -> "OK\t" ^ core_sx c
+       | None -> "NONE")
+
 (* ---------- lexer ---------- *)
 let rec pos_to_int = function XH -> 1 | XO p -> 2 * pos_to_int p | XI p -> 2 * pos_to_int p + 1
 let z_to_int = function Z0 -> 0 | Zpos p -> pos_to_int p | Zneg p -> - (pos_to_int p)
@@ -210,6 +354,7 @@ let handle cmd payload =
        | Some e -> "OK\t" ^ pexpr e
        | None -> "NONE")
   | "lex" -> lex_cmd payload
+  | "gen" -> gen_cmd payload
   | "tableok" -> if table_ok generated then "OK\tT" else "OK\tF"
   | _ -> "BAD\tunknown command"
 
